@@ -14,7 +14,7 @@
 use roto::{FileSpec, FileTree, NoCtx, Package, Runtime, SourceFile};
 use std::collections::BTreeMap;
 use std::path::Path as FsPath;
-use vcore::util::{fnv_str, mix};
+use vcore::util::mix;
 use vcore::{Cfg, Check, Cx, Finding, Meta, Tier, Value, Violation, json};
 
 mod disk;
@@ -607,6 +607,8 @@ fn run_probes(env: &Env, site: usize, kind: Kind, group: usize, cx: &mut Cx) {
         }
     }
     let _ = std::fs::remove_dir_all(&base);
+    // the worker directory itself goes when it is empty
+    let _ = std::fs::remove_dir(disk::work_root());
 }
 
 // ---------------------------------------------------------------- lookup units
@@ -675,7 +677,13 @@ fn run_lookup(env: &Env, cx: &mut Cx) {
         let origin = if o == 0 { "memory" } else { "disk" };
         let setup_sub = (o as u64) << 16 | 0xffff;
         let wanted = cx.only().is_none_or(|s| s >> 16 == o as u64);
-        if !wanted || !cx.case(setup_sub) {
+        if !wanted {
+            continue;
+        }
+        if cx.only().is_some_and(|s| s != setup_sub) {
+            // replay of one lookup: the package still has to be built
+            cx.case(vcore::SUB_SETUP);
+        } else if !cx.case(setup_sub) {
             continue;
         }
         let pkg = match layout {
@@ -783,6 +791,8 @@ fn run_lookup(env: &Env, cx: &mut Cx) {
         }
     }
     let _ = std::fs::remove_dir_all(&base);
+    // the worker directory itself goes when it is empty
+    let _ = std::fs::remove_dir(disk::work_root());
 }
 
 // ---------------------------------------------------------------- check
@@ -816,6 +826,10 @@ impl Check for C13 {
         let env = env_of(&u);
         match u {
             Unit::Lookup { .. } => {
+                if sub == SUB_CONFLICT {
+                    return json!({"what": "conflict", "tree_index": env.tree_idx, "placement": env.placement,
+                                  "files": "a.roto and a/mod.roto both exist"});
+                }
                 let names = lookup_names();
                 let o = (sub >> 16) as usize;
                 let ci = (sub & 0xffff) as usize;
@@ -952,9 +966,4 @@ impl Check for C13 {
 
 fn main() {
     vcore::main(&C13)
-}
-
-#[allow(dead_code)]
-fn _unused() {
-    let _ = fnv_str("");
 }
